@@ -346,3 +346,13 @@ def finding_key(case, impl, why):
     w = re.sub(r'event \d+: ', '', why)
     w = re.sub(r'[^a-zA-Z]+', '-', w).strip('-').lower()
     return w[:60]
+
+LEVEL_TEXT = ('Lean 4 theorems over a hand-written model of SvsInst (sync_handler, aggregate, on_timer decision, new_data): '
+              'entry-wise-max merge, monotonicity over all histories, over-claim ignored, callback iff raised, publish emits, '
+              'suppression emission iff local newer than merge of heard vectors (invariant over every event history). '
+              'The model is tied to the code on every run by differential execution of the compiled model against the real '
+              'SvsInst on a virtual-time asyncio loop, plus the property oracle evaluated on the implementation.')
+LEVEL_NOTE = ('Proof is about the model; model=code is sampled (differential testing), not proved. Timer expiry is an abstract '
+              'event; decoding of vectors is delegated to the library codec (C08).')
+TECHNIQUE = 'Lean 4 proof (induction over event histories, ghost-state invariant) + model/implementation correspondence check'
+DESIGN_REF = 'DESIGN.md section 7, C18'
